@@ -745,9 +745,8 @@ Definition item_ends_word (it : citem) : bool :=
   end.
 
 (* a file:  [blank] (item [blank])*  -- the blank after an item is a slot of its own only if the item does not end in a
-   blank slot; an item that ends with a word is set off from the next item; the last blank of the text may end with an
-   unterminated line comment.  A text that consists of a blank only is NOT read by the parser (finding F-15b), so the
-   leading blank of a file without items must be empty. *)
+   blank slot; an item that ends with a word is set off from the next item; the last blank of the text (the leading blank,
+   if the document has no items) may end with an unterminated line comment. *)
 Record cfile := mkCFile { fl_b0 : blank; fl_items : list (citem * blank) }.
 Fixpoint pr_items (l : list (citem * blank)) (k : list byte) : list byte :=
   match l with [] => k | (it, b) :: l' => pr_item it (pr_blank b (pr_items l' k)) end.
@@ -768,5 +767,4 @@ Fixpoint wf_items (l : list (citem * blank)) : bool :=
     wf_item (is_nil l' && is_nil b) it && wfb (is_nil l') b && (negb (item_open it) || is_nil b) &&
     (is_nil l' || negb (item_ends_word it && is_nil b)) && wf_items l'
   end.
-Definition wf_file (c : cfile) : bool :=
-  wf_blank (fl_b0 c) && (negb (is_nil (fl_items c)) || is_nil (fl_b0 c)) && wf_items (fl_items c).
+Definition wf_file (c : cfile) : bool := wfb (is_nil (fl_items c)) (fl_b0 c) && wf_items (fl_items c).
